@@ -25,17 +25,17 @@ import (
 )
 
 type HostileConn struct {
-	Bad      [][]vh.Seg `json:"bad"`      // hostile inputs, each followed by a newline
-	Frag     int        `json:"frag"`     // write in fragments of this many bytes (0 = whole)
-	Abrupt   bool       `json:"abrupt"`   // reset the connection in the middle of the last line instead of closing gracefully
-	PauseMs  int        `json:"pauseMs"`  // pause between sentinel A and the hostile bytes (lets the periodic flush run)
+	Bad     [][]vh.Seg `json:"bad"`     // hostile inputs, each followed by a newline
+	Frag    int        `json:"frag"`    // write in fragments of this many bytes (0 = whole)
+	Abrupt  bool       `json:"abrupt"`  // reset the connection in the middle of the last line instead of closing gracefully
+	PauseMs int        `json:"pauseMs"` // pause between sentinel A and the hostile bytes (lets the periodic flush run)
 }
 
 type HostileCase struct {
-	MaxMsg int           `json:"maxMsg"`
-	PoolAll bool         `json:"poolAll,omitempty"` // the pooling threshold (a defs variable, 1 KiB) is lowered to 32 bytes: the backing buffer of
+	MaxMsg  int  `json:"maxMsg"`
+	PoolAll bool `json:"poolAll,omitempty"` // the pooling threshold (a defs variable, 1 KiB) is lowered to 32 bytes: the backing buffer of
 	// every record, sentinels included, is recycled and re-used by the next line of the same size class - hostile ones too
-	Conns  []HostileConn `json:"conns"`
+	Conns []HostileConn `json:"conns"`
 }
 
 // sentinelEsc is appended to the messages of sentinels B and C: escape sequences, which the Fluentd output of the sample
